@@ -13,10 +13,11 @@ Max(a, b) == IF a > b THEN a ELSE b
 TraceInit == /\ tid \in 1 .. Len(Traces) /\ l = 1 /\ Init /\ TLCSet(tid, 1)
 
 Event(ev) ==
-    CASE ev.ev = "Write" -> file' = file \o ev.data /\ UNCHANGED <<pos, buffer, pending, emitted, on>>
+    CASE ev.ev = "Write" -> file' = file \o ev.data /\ UNCHANGED <<pos, buffer, pending, emitted, inflight, on>>
       [] ev.ev = "Start" -> Start
       [] ev.ev = "Stop" -> Stop
-      [] ev.ev = "Emit" -> EmitRec /\ Head(pending) = ev.rec
+      [] ev.ev = "Emit" -> EmitRec(ev.async) /\ Head(pending) = ev.rec
+      [] ev.ev = "Done" -> ConsumerDone
       [] ev.ev = "ObsBuffer" -> buffer = ev.buffer /\ pending = <<>> /\ Same
       \* (a stopped source owes nothing: the cycle in progress *may* finish -- behind a stopped map_async it does not)
       [] ev.ev = "End" -> (on => (pos = Len(file) /\ pending = <<>>)) /\ Same
@@ -28,7 +29,7 @@ TraceNext ==
     \/ /\ l <= Len(T) /\ Poll /\ UNCHANGED <<tid, l>>
 
 TraceSpec == TraceInit /\ [][TraceNext]_tvars
-TraceInv == Conservation /\ WholeRecords /\ TailHeld /\ Exact
+TraceInv == Conservation /\ WholeRecords /\ TailHeld /\ Exact /\ OneAtATime
 Report == \A i \in 1 .. Len(Traces) : PrintT(<<"REACHED", Traces[i].id, TLCGet(i), Len(Traces[i].ev) + 1>>)
 
 \* per-group constants (the text alphabet is irrelevant for validation)
